@@ -18,5 +18,6 @@ CHECK = {
                  'log output is discarded and the global logging mutex is a no-op in the race build: log lines are not synchronisation fan2go may rely on, and both would order almost any two accesses for the detector'],
  'level_text': 'finite grid of schedules, each one decided by a happens-before oracle (not by observing an actual collision); known racy access sites are listed individually, any new site fails the check',
  'level_note': 'the race detector keeps a bounded access history, so an individual report may be missed in one run; the set of racy SITES is what is compared, which is stable across runs; accesses that are separated by bolt database sessions of both goroutines are ordered in that execution through the process-global mutex inside syscall.Mmap/Munmap and are then not reported (the verdict is about the enumerated executions); goroutine pre-emption inside a handler is decided by the happens-before relation, not enumerated',
- 'runs': [{'pkg': 'internal', 'test': 'TestVX_C20', 'race': True, 'shards_quick': 4, 'shards_thorough': 4, 'gomaxprocs': '4'}],
+ 'runs': [{'pkg': 'internal', 'test': 'TestVX_C20', 'race': True, 'shards_quick': 4, 'shards_thorough': 4, 'gomaxprocs': '4'},
+          {'pkg': 'internal', 'test': 'TestVX_C20observers', 'shards_quick': 5, 'shards_thorough': 5, 'gomaxprocs': '2'}],
 }
